@@ -83,7 +83,8 @@ def sa_version_count(d):
         return False
     case, det, content, text = _sa_case(d)
     kw = case['kw']
-    if det['symptoms'] != ['chunk-overflow'] or kw.get('version') is None:
+    if det['symptoms'] != ['chunk-overflow'] or kw.get('version') is None or kw.get('symbol_count') is not None:
+        # (with a symbol count as well the version is re-fitted to the longest chunk: that path never overflows)
         return False
     if det.get('per_chunk_policy') is False:      # None: bytes content (cut by bytes, nothing to re-encode)
         return False
